@@ -170,7 +170,10 @@ func Text(b []byte) string {
 // ForeignPlatform rewrites the platform recorded in every errno
 // payload, which makes the receiver treat the errno as coming from
 // another OS/architecture. It returns the number of payloads changed.
-func ForeignPlatform(enc *errorspb.EncodedError) int {
+func ForeignPlatform(enc *errorspb.EncodedError) int { return ForeignPlatformAs(enc, "plan9:mips") }
+
+// ForeignPlatformAs is ForeignPlatform with a given "GOOS:GOARCH".
+func ForeignPlatformAs(enc *errorspb.EncodedError, arch string) int {
 	n := 0
 	VisitDetails(enc, func(d *errorspb.EncodedErrorDetails, _ bool) {
 		if d.FullDetails == nil {
@@ -181,7 +184,7 @@ func ForeignPlatform(enc *errorspb.EncodedError) int {
 			return
 		}
 		if p, ok := da.Message.(*errorspb.ErrnoPayload); ok {
-			p.Arch = "plan9:mips"
+			p.Arch = arch
 			if a, err := types.MarshalAny(p); err == nil {
 				d.FullDetails = a
 				n++
